@@ -176,7 +176,8 @@ func checkC01(p *Program, r *Report) {
 		"R3 every go statement of vm/env/core starts a function whose every call is made under a deferred recover, again disabled at most by Debug. " +
 		"R4 no call of os.Exit / log.Fatal* / runtime.Goexit / syscall.Exit in vm, env, parser, ast, core. " +
 		"R5 the recover handler always leaves a non-nil error, and code that runs outside of any recover in the entry points calls only reflect operations that cannot panic or are guarded by IsValid/CanInterface. " +
-		"R6 (parse path, which has no recover by design) is decided under C15.R3 and shared here.")
+		"R6 (parse path, which has no recover by design) is decided under C15.R3 and shared here. " +
+		"R9 every Unlock / RUnlock in package env is of a lock held on that path (lock typestate of C13.R2): unlocking an unheld mutex is a fatal runtime error, not a panic.")
 	r.Assume("stack exhaustion, huge allocations, concurrent map writes between script goroutines and 'all goroutines are asleep' are outside the statement; reflect and the Go runtime are trusted to panic (not crash) on misuse")
 	m, err := buildVMModel(p)
 	if err != nil {
@@ -267,6 +268,41 @@ func checkC01(p *Program, r *Report) {
 	r.Note("calls_under_local_handlers", nGuarded)
 	if esp := p.SSAPkg("env"); esp != nil {
 		locksNotCopied(p, r, append(SrcFuncs(esp), m.fns...), "C01.R7")
+	}
+	// R9 (= the unlock half of C13.R2): unlocking a scope's mutex that is not held is not a panic but a fatal error of the
+	// runtime ("sync: Unlock of unlocked RWMutex"): no recover handler sees it, the host process dies
+	if em, err := buildEnvModel(p); err == nil {
+		sub := NewReport("C01", r.Tier)
+		sub.Secondary = true
+		nPair := 0
+		for _, fn := range SrcFuncs(em.sp) {
+			hasLock := false
+			for _, b := range fn.Blocks {
+				for _, in := range b.Instrs {
+					if c, ok := in.(ssa.CallInstruction); ok {
+						if base, _ := em.mutexOp(c.Common()); base != nil {
+							hasLock = true
+						}
+					}
+				}
+			}
+			if !hasLock {
+				continue
+			}
+			nPair++
+			em.lockset(fn, sub, "C01.R9")
+		}
+		bad := 0
+		for _, o := range sub.Obls {
+			if o.Verdict != "ok" && (strings.Contains(o.Instance, "unlock-unheld") || strings.Contains(o.Instance, "runlock-unheld") || strings.Contains(o.Instance, "|join")) {
+				bad++
+				r.Fail("C01.R9", o.Instance, o.Site, o.By+": unlocking a mutex that is not held is a fatal error no recover handler can contain - a script reaches it through delete / assignment and kills the host")
+			}
+		}
+		if bad == 0 {
+			r.OK("C01.R9", "env|every unlock is of a held lock", "env", fmt.Sprintf("lock typestate of %d functions of package env: no Unlock / RUnlock of a lock that is not held on the path", nPair))
+		}
+		r.Floor("C01.R9", nPair, 10)
 	}
 	c01SharedMaps(p, r)
 	// R1: unprotected reachability from exported roots
